@@ -6,6 +6,7 @@ import (
 	"bytes"
 	"encoding/json"
 	"fmt"
+	"io"
 	"runtime"
 	"strconv"
 	"strings"
@@ -30,11 +31,14 @@ type nodeD struct {
 }
 type prodD struct {
 	Name string `json:"name"`
-	Node int    `json:"node"`
+	Kind string `json:"kind,omitempty"` // "" = text producer on node Node; "bin" = basics.Binary on file parameter P;
+	//                                     "ints" = harness slice artifact on ints parameter P (both keep the slice they were given)
+	Node int `json:"node,omitempty"`
+	P    int `json:"p,omitempty"`
 }
 type shapeD struct {
 	Name   string   `json:"name"`
-	PTypes []string `json:"ptypes"` // "int" | "float" | "string" | "bool"
+	PTypes []string `json:"ptypes"` // "int" | "float" | "string" | "bool" | "file" (parameter.File) | "ints" (Value[[]int])
 	Nodes  []nodeD  `json:"nodes"`
 	Prods  []prodD  `json:"prods"`
 }
@@ -50,6 +54,12 @@ func (s *shapeD) lists(n int) []int {
 		out = append(out, s.lists(c)...)
 	}
 	return out
+}
+func (s *shapeD) prodLists(k int) []int {
+	if s.Prods[k].Kind != "" {
+		return []int{s.Prods[k].P}
+	}
+	return s.lists(s.Prods[k].Node)
 }
 func (s *shapeD) depth(n int) int {
 	d := s.Nodes[n]
@@ -90,8 +100,114 @@ func (j *jit) pause() {
 
 // ---------------------------------------------------------------- node types
 type cfg struct {
-	idx int
-	j   *jit
+	idx      int
+	j        *jit
+	inflight atomic.Int32  // clients currently inside this node's Process
+	overlaps *atomic.Int64 // graph-wide: how often a client entered a Process another client was already inside
+}
+
+// enter/leave bracket every Process: evaluation happens inside the Instance's critical section, so a second
+// client inside the same node is a direct observation that mutual exclusion is broken
+func (c *cfg) enter() {
+	if c.inflight.Add(1) > 1 && c.overlaps != nil {
+		c.overlaps.Add(1)
+	}
+}
+func (c *cfg) leave() { c.inflight.Add(-1) }
+
+// ---- slice-valued payloads: code v <-> a payload whose LENGTH also depends on v, so that an in-place overwrite
+// by a same-size payload shows another valid code and by a shorter one an invalid mixture
+func payloadLen(v int) int { return 8 + 8*((v*7+3)%3) } // 8, 16 or 24
+func filePayload(v int) []byte {
+	return bytes.Repeat([]byte{byte('A' + v%26)}, payloadLen(v))
+}
+func decodeFile(b []byte) (int, bool) {
+	if len(b) == 0 || b[0] < 'A' || b[0] > 'Z' {
+		return 0, false
+	}
+	v := int(b[0] - 'A')
+	if len(b) != payloadLen(v) {
+		return 0, false
+	}
+	for _, x := range b {
+		if x != b[0] {
+			return 0, false
+		}
+	}
+	return v, true
+}
+func intsPayload(v int) []int {
+	out := make([]int, payloadLen(v)/4)
+	for i := range out {
+		out[i] = v
+	}
+	return out
+}
+func decodeInts(xs []int) (int, bool) {
+	if len(xs) == 0 || xs[0] < 0 || len(xs) != payloadLen(xs[0])/4 {
+		return 0, false
+	}
+	for _, x := range xs {
+		if x != xs[0] {
+			return 0, false
+		}
+	}
+	return xs[0], true
+}
+func codeText(v int, ok bool) string {
+	if !ok {
+		return "X"
+	}
+	return strconv.Itoa(v)
+}
+
+// IntsArtifact keeps the slice it was given (like basics.Binary keeps its bytes) and serialises on demand
+type IntsArtifact struct{ Data []int }
+
+func (a IntsArtifact) Write(w io.Writer) error {
+	b, err := json.Marshal(a.Data)
+	if err != nil {
+		return err
+	}
+	_, err = w.Write(b)
+	return err
+}
+func (IntsArtifact) Mime() string { return "application/json" }
+
+type IntsArtifactData struct {
+	c  *cfg
+	In nodes.NodeOutput[[]int]
+}
+
+func (d IntsArtifactData) Process() (artifact.Artifact, error) {
+	d.c.enter()
+	defer d.c.leave()
+	d.c.j.pause()
+	return IntsArtifact{Data: d.In.Value()}, nil
+}
+
+type ShowFileData struct {
+	c  *cfg
+	In nodes.NodeOutput[[]byte]
+}
+
+func (d ShowFileData) Process() (string, error) {
+	d.c.enter()
+	defer d.c.leave()
+	d.c.j.pause()
+	return fmt.Sprintf("p%d=%s;", d.c.idx, codeText(decodeFile(d.In.Value()))), nil
+}
+
+type ShowIntsData struct {
+	c  *cfg
+	In nodes.NodeOutput[[]int]
+}
+
+func (d ShowIntsData) Process() (string, error) {
+	d.c.enter()
+	defer d.c.leave()
+	d.c.j.pause()
+	return fmt.Sprintf("p%d=%s;", d.c.idx, codeText(decodeInts(d.In.Value()))), nil
 }
 
 type ShowIntData struct {
@@ -100,6 +216,8 @@ type ShowIntData struct {
 }
 
 func (d ShowIntData) Process() (string, error) {
+	d.c.enter()
+	defer d.c.leave()
 	d.c.j.pause()
 	return fmt.Sprintf("p%d=%d;", d.c.idx, d.In.Value()), nil
 }
@@ -110,6 +228,8 @@ type ShowFloatData struct {
 }
 
 func (d ShowFloatData) Process() (string, error) {
+	d.c.enter()
+	defer d.c.leave()
 	d.c.j.pause()
 	return fmt.Sprintf("p%d=%d;", d.c.idx, int(d.In.Value())), nil
 }
@@ -120,6 +240,8 @@ type ShowStringData struct {
 }
 
 func (d ShowStringData) Process() (string, error) {
+	d.c.enter()
+	defer d.c.leave()
 	d.c.j.pause()
 	return fmt.Sprintf("p%d=%s;", d.c.idx, d.In.Value()), nil
 }
@@ -130,6 +252,8 @@ type ShowBoolData struct {
 }
 
 func (d ShowBoolData) Process() (string, error) {
+	d.c.enter()
+	defer d.c.leave()
 	d.c.j.pause()
 	v := 0
 	if d.In.Value() {
@@ -145,6 +269,8 @@ type Join2Data struct {
 }
 
 func (d Join2Data) Process() (string, error) {
+	d.c.enter()
+	defer d.c.leave()
 	a := d.A.Value()
 	d.c.j.pause()
 	b := d.B.Value()
@@ -159,6 +285,8 @@ type Join3Data struct {
 }
 
 func (d Join3Data) Process() (string, error) {
+	d.c.enter()
+	defer d.c.leave()
 	a := d.A.Value()
 	d.c.j.pause()
 	b := d.B.Value()
@@ -179,6 +307,9 @@ type liveGraph struct {
 	inst  *graph.Instance
 	par   []liveParam
 	prodF [][]int // per producer: parameter indices listed by its text
+	over  atomic.Int64
+	// responses of earlier windows that are backed by slices (binary / ints artifacts, file ParameterData)
+	retained []*rec
 }
 
 func encodeVal(typ string, v int) []byte {
@@ -192,6 +323,11 @@ func encodeVal(typ string, v int) []byte {
 			return []byte("true")
 		}
 		return []byte("false")
+	case "file":
+		return filePayload(v) // a fresh slice per update: File.ApplyMessage adopts it
+	case "ints":
+		b, _ := json.Marshal(intsPayload(v))
+		return b
 	}
 	panic("type")
 }
@@ -227,6 +363,14 @@ func decodeVal(typ string, msg []byte) (int, bool) {
 			return 1, true
 		}
 		return 0, true
+	case "file":
+		return decodeFile(msg)
+	case "ints":
+		var xs []int
+		if json.Unmarshal(msg, &xs) != nil {
+			return 0, false
+		}
+		return decodeInts(xs)
 	}
 	return 0, false
 }
@@ -237,6 +381,8 @@ func build(s *shapeD, init []int, j *jit) *liveGraph {
 	floats := map[int]nodes.NodeOutput[float64]{}
 	strs := map[int]nodes.NodeOutput[string]{}
 	bools := map[int]nodes.NodeOutput[bool]{}
+	files := map[int]nodes.NodeOutput[[]byte]{}
+	intss := map[int]nodes.NodeOutput[[]int]{}
 	for p, t := range s.PTypes {
 		name := fmt.Sprintf("p%d", p)
 		switch t {
@@ -256,13 +402,21 @@ func build(s *shapeD, init []int, j *jit) *liveGraph {
 			n := &parameter.Bool{Name: name, DefaultValue: init[p] != 0}
 			bools[p] = n.Out()
 			g.par = append(g.par, liveParam{typ: t, node: n})
+		case "file":
+			n := &parameter.File{Name: name, DefaultValue: filePayload(init[p])}
+			files[p] = n.Out()
+			g.par = append(g.par, liveParam{typ: t, node: n})
+		case "ints":
+			n := &parameter.Value[[]int]{Name: name, DefaultValue: intsPayload(init[p])}
+			intss[p] = n.Out()
+			g.par = append(g.par, liveParam{typ: t, node: n})
 		default:
 			panic("ptype " + t)
 		}
 	}
 	outs := make([]nodes.NodeOutput[string], len(s.Nodes))
 	for k, d := range s.Nodes {
-		c := &cfg{idx: d.P, j: j}
+		c := &cfg{idx: d.P, j: j, overlaps: &g.over}
 		switch d.Kind {
 		case "show":
 			switch s.PTypes[d.P] {
@@ -274,6 +428,10 @@ func build(s *shapeD, init []int, j *jit) *liveGraph {
 				outs[k] = (&nodes.Struct[string, ShowStringData]{Data: ShowStringData{c: c, In: strs[d.P]}}).Out()
 			case "bool":
 				outs[k] = (&nodes.Struct[string, ShowBoolData]{Data: ShowBoolData{c: c, In: bools[d.P]}}).Out()
+			case "file":
+				outs[k] = (&nodes.Struct[string, ShowFileData]{Data: ShowFileData{c: c, In: files[d.P]}}).Out()
+			case "ints":
+				outs[k] = (&nodes.Struct[string, ShowIntsData]{Data: ShowIntsData{c: c, In: intss[d.P]}}).Out()
 			}
 		case "join":
 			switch len(d.In) {
@@ -288,9 +446,19 @@ func build(s *shapeD, init []int, j *jit) *liveGraph {
 			panic("node kind " + d.Kind)
 		}
 	}
-	for _, p := range s.Prods {
-		g.inst.AddProducer(p.Name, basics.NewTextNode(outs[p.Node]))
-		g.prodF = append(g.prodF, s.lists(p.Node))
+	for k, p := range s.Prods {
+		switch p.Kind {
+		case "":
+			g.inst.AddProducer(p.Name, basics.NewTextNode(outs[p.Node]))
+		case "bin":
+			g.inst.AddProducer(p.Name, basics.NewBinaryNode(files[p.P]))
+		case "ints":
+			c := &cfg{idx: p.P, j: j, overlaps: &g.over}
+			g.inst.AddProducer(p.Name, (&nodes.Struct[artifact.Artifact, IntsArtifactData]{Data: IntsArtifactData{c: c, In: intss[p.P]}}).Out())
+		default:
+			panic("producer kind " + p.Kind)
+		}
+		g.prodF = append(g.prodF, s.prodLists(k))
 	}
 	for p := range g.par {
 		g.par[p].id = g.inst.NodeId(g.par[p].node)
@@ -326,6 +494,23 @@ func parseText(txt string, f []int) ([]int, bool) {
 	return vs, true
 }
 
+// decodeArtifact: the bytes an artifact writes -> the values it shows (by producer kind)
+func (g *liveGraph) decodeArtifact(prod int, data []byte) ([]int, bool) {
+	switch g.shape.Prods[prod].Kind {
+	case "bin":
+		v, ok := decodeFile(data)
+		return []int{v}, ok
+	case "ints":
+		var xs []int
+		if json.Unmarshal(data, &xs) != nil {
+			return nil, false
+		}
+		v, ok := decodeInts(xs)
+		return []int{v}, ok
+	}
+	return parseText(string(data), g.prodF[prod])
+}
+
 func artifactText(a artifact.Artifact) (string, bool) {
 	if a == nil {
 		return "", false
@@ -338,7 +523,7 @@ func artifactText(a artifact.Artifact) (string, bool) {
 }
 
 // ---------------------------------------------------------------- shapes
-var ptypeCycle = []string{"int", "float", "string", "bool"}
+var ptypeCycle = []string{"int", "file", "float", "ints", "string", "bool"}
 
 func fixedShapes() []*shapeD {
 	return []*shapeD{
@@ -353,7 +538,7 @@ func fixedShapes() []*shapeD {
 				{Kind: "show", P: 0},            // 8 second reader of p0
 				{Kind: "join", In: []int{3, 8}}, // 9 -> c.txt  [3,0]
 			},
-			Prods: []prodD{{"a.txt", 6}, {"b.txt", 7}, {"c.txt", 9}},
+			Prods: []prodD{{Name: "a.txt", Node: 6}, {Name: "b.txt", Node: 7}, {Name: "c.txt", Node: 9}},
 		},
 		{ // the same parameters through two different paths: [0,1,1,0]
 			Name: "two-paths", PTypes: []string{"int", "int", "float", "string", "int"},
@@ -369,7 +554,7 @@ func fixedShapes() []*shapeD {
 				{Kind: "join", In: []int{4, 10}},   // 11 -> b.txt [0,1,2,3,4]... trimmed below
 				{Kind: "join", In: []int{9, 0}},    // 12 -> c.txt [4,0]
 			},
-			Prods: []prodD{{"a.txt", 6}, {"b.txt", 10}, {"c.txt", 12}, {"d.txt", 11}},
+			Prods: []prodD{{Name: "a.txt", Node: 6}, {Name: "b.txt", Node: 10}, {Name: "c.txt", Node: 12}, {Name: "d.txt", Node: 11}},
 		},
 		{ // three-input joins, six parameters
 			Name: "wide", PTypes: []string{"int", "float", "string", "bool", "int", "float"},
@@ -382,7 +567,18 @@ func fixedShapes() []*shapeD {
 				{Kind: "join", In: []int{8, 0}},    // 9 -> b.txt [4,5,0]
 				{Kind: "join", In: []int{2, 8}},    // 10 -> c.txt [2,4,5]
 			},
-			Prods: []prodD{{"a.txt", 7}, {"b.txt", 9}, {"c.txt", 10}},
+			Prods: []prodD{{Name: "a.txt", Node: 7}, {Name: "b.txt", Node: 9}, {Name: "c.txt", Node: 10}},
+		},
+		{ // slice-valued parameters: an uploaded file feeding a binary artifact and a text artifact, an int slice
+			Name: "slices", PTypes: []string{"file", "int", "ints", "string", "file"},
+			Nodes: []nodeD{
+				{Kind: "show", P: 0}, {Kind: "show", P: 1}, {Kind: "show", P: 2}, {Kind: "show", P: 3}, {Kind: "show", P: 4}, // 0-4
+				{Kind: "join", In: []int{0, 1}},    // 5 (shared)
+				{Kind: "join", In: []int{5, 2}},    // 6 -> info.txt [0,1,2]
+				{Kind: "join", In: []int{3, 4, 5}}, // 7 -> more.txt [3,4,0,1]
+			},
+			Prods: []prodD{{Name: "model.bin", Kind: "bin", P: 0}, {Name: "info.txt", Node: 6}, {Name: "more.txt", Node: 7},
+				{Name: "ints.json", Kind: "ints", P: 2}, {Name: "other.bin", Kind: "bin", P: 4}},
 		},
 	}
 }
@@ -392,9 +588,9 @@ func fixedShapes() []*shapeD {
 func randomShape(r *hx.Rng, k int) *shapeD {
 	P := r.Range(4, 6)
 	s := &shapeD{Name: fmt.Sprintf("random-%d", k)}
-	off := r.Intn(4)
+	off := r.Intn(len(ptypeCycle))
 	for p := 0; p < P; p++ {
-		s.PTypes = append(s.PTypes, ptypeCycle[(p+off)%4])
+		s.PTypes = append(s.PTypes, ptypeCycle[(p+off)%len(ptypeCycle)])
 	}
 	showPool := map[int][]int{}
 	show := func(p int) int {
@@ -452,8 +648,8 @@ func randomShape(r *hx.Rng, k int) *shapeD {
 	// parameters not reachable from a producer get one more producer
 	var rest []int
 	seen := map[int]bool{}
-	for _, p := range s.Prods {
-		for _, x := range s.lists(p.Node) {
+	for k := range s.Prods {
+		for _, x := range s.prodLists(k) {
 			seen[x] = true
 		}
 	}
@@ -475,6 +671,15 @@ func randomShape(r *hx.Rng, k int) *shapeD {
 	}
 	if len(rest) == 1 {
 		s.Prods = append(s.Prods, prodD{Name: "rest.txt", Node: rest[0]})
+	}
+	// slice-valued parameters also feed artifacts that keep the slice itself
+	for p, t := range s.PTypes {
+		if t == "file" && r.Chance(3, 4) {
+			s.Prods = append(s.Prods, prodD{Name: fmt.Sprintf("raw%d.bin", p), Kind: "bin", P: p})
+		}
+		if t == "ints" && r.Chance(3, 4) {
+			s.Prods = append(s.Prods, prodD{Name: fmt.Sprintf("raw%d.json", p), Kind: "ints", P: p})
+		}
 	}
 	return s
 }
